@@ -22,6 +22,9 @@ NEWLINE_ALPHABET = ['a', '%', '_', '\n', '\r', '\u2028', '\x85']
 HOST_WORDS = ['constructor', 'toString', 'valueOf', 'hasOwnProperty', 'isPrototypeOf', 'toLocaleString', 'propertyIsEnumerable', '__proto__', '__defineGetter__',
               '__lookupGetter__', 'prototype', 'length', 'size', 'get', 'set', 'has', 'keys', 'null', 'undefined', 'NaN', 'None', 'True', 'false', '__class__', '__dict__',
               '__init__', '__len__', 'self', 'this', 'pattern', 'text', 'like', 'LIKE', 'cache', 'match', 'test', 'exec', 'source', 'flags', 'lastIndex', 'then', 'toJSON']
+# patterns written as string literals in the query text: characters that mean something to a replacement routine, a literal lexer or the query parser
+LITERAL_PATTERNS = ['$$', '%$$', 'a$$b', 'a$&b', 'a$`b', "$'", "a$'", '$1', '$0', '${x}', '$<n>', '\\$', '$', '%$', "it's", 'say "hi"', 'back\\slash', '\\%', '\\_', '\\\\', 'tab\there',
+                    'select %', '% from %', 'a as b', '# not comment', '-- x', 'x; y', 'a == b', 'like(a1, a2)', '%,%', '(%)', '[%]', '{_}', '___RBQL_STRING_LITERAL0___', '%s', '{}', '{0}', '%(x)s', ' ', '']
 EXTRA_META = [')', ']', '{', '}', '-', '#', ' ', '&', '~', '/', "'", '"']
 
 PAT_LEN = {'quick': 3, 'thorough': 4}
@@ -40,6 +43,7 @@ def plan(tier, seed):
     specs += [{'kind': 'newlines', 'engine': e} for e in ('py', 'js')]
     specs += [{'kind': 'quantifiers', 'engine': e} for e in ('py', 'js')]
     specs += [{'kind': 'words', 'engine': e} for e in ('py', 'js')]
+    specs += [{'kind': 'literal', 'i': i, 'n': 150 if tier == 'quick' else 1500} for i in range(2 if tier == 'quick' else 6)]
     if tier == 'thorough':
         specs += [{'kind': 'derived', 'k': 32, 'i': i} for i in range(32)]
     return specs
@@ -244,6 +248,52 @@ def run_shard(spec, res):
                 res.count('js_%s_pairs' % kind[:-1], len(texts) * len(pats))
             finally:
                 node.close()
+    elif kind == 'literal':
+        from ..model import qast
+        pats = list(LITERAL_PATTERNS) if spec['i'] == 0 else []
+        while len(pats) < spec['n']:
+            t, p = random_pair(rng, True)
+            if rng.random() < 0.4:
+                j = rng.randrange(len(p) + 1)
+                p = p[:j] + rng.choice(['$$', '$&', "$'", '$`', '\\', "'", '"', '#', ' as ', ',', ';', '{', '%s']) + p[j:]
+            pats.append(p)
+        cases = []
+        for i, p in enumerate(pats):
+            texts = derived_texts(p)[:10] + [p, p.replace('$$', '$'), p + 'x', '']
+            quote = '"' if i % 2 else "'"
+            cases.append({'query': 'select like(a1, %s)' % qast.lit(p, quote), 'texts': texts, 'pattern': p})
+        for c in cases:
+            out = []
+            try:
+                ns.rbql.query_table(c['query'], [[t] for t in c['texts']], out, [])
+                got = [r[0] for r in out]
+                err = None
+            except Exception as e:
+                got, err = None, '%s: %s' % (util.error_class(e), str(e)[:120])
+            res.count('py_literal_pattern_queries')
+            for k, t in enumerate(c['texts']):
+                exp = refcsv.like(t, c['pattern'])
+                res.evaluations += 1
+                res.nontrivial('lit', c['pattern'], t)
+                if err is not None or got[k] is not exp:
+                    res.violation('py-like-literal-pattern', '%s over text %r -> %s, reference like(%r, %r) = %r' % (c['query'], t, err if err else got[k], t, c['pattern'], exp), {'engine': 'py', 'pairs': [[t, c['pattern']]], 'query_text': c['query'], 'literal': True})
+                    break
+        from ..js import bridge
+        node = bridge.Node.start()
+        if node is not None:
+            try:
+                r = node.call({'op': 'like_literal_batch', 'cases': [{'query': c['query'], 'texts': c['texts']} for c in cases]})
+                for c, o in zip(cases, r['results']):
+                    res.count('js_literal_pattern_queries')
+                    for k, t in enumerate(c['texts']):
+                        exp = refcsv.like(utf16_units(t), utf16_units(c['pattern']))
+                        res.evaluations += 1
+                        if o['error'] is not None or o['out'][k] is not exp:
+                            res.violation('js-like-literal-pattern', 'JS %s over text %r -> %s, reference like(%r, %r) = %r' % (c['query'], t, o['error'] if o['error'] else o['out'][k], t, c['pattern'], exp), {'engine': 'js', 'pairs': [[t, c['pattern']]], 'query_text': c['query'], 'literal': True})
+                            break
+            finally:
+                node.close()
+        res.sample({'engine': 'py+js', 'literal_pattern_queries': len(cases), 'example': cases[0]['query']})
     elif kind == 'random':
         pairs = [random_pair(rng, False) for _ in range(spec['n'])]
         for pr in pairs:
@@ -295,11 +345,11 @@ def run_shard(spec, res):
 
 def summarize(tier, seed, m):
     return {
-        'rule': 'exhaustive: all patterns of length <= %d x all single-line texts of length <= %d over the 14-symbol alphabet %s through `select like(a1, a2)` (every 5th batch through `where like(a1, a2)`) on the Python engine; patterns <= %d x texts <= %d on the JS engine via node; %d random longer Unicode pairs (pattern derived from the text, then perturbed; for JS half of them with characters outside the BMP, judged on UTF-16 code units)%s; a words leg (py + js): patterns and texts that are names the host language gives a meaning to (Object.prototype / Map / dict members, keywords, constants), plain and with wildcards. distinct_nontrivial counts pairs whose pattern contains a wildcard or a regular-expression metacharacter (exhaustive legs, disjoint by construction) plus distinct random pairs.' % (
+        'rule': 'exhaustive: all patterns of length <= %d x all single-line texts of length <= %d over the 14-symbol alphabet %s through `select like(a1, a2)` (every 5th batch through `where like(a1, a2)`) on the Python engine; patterns <= %d x texts <= %d on the JS engine via node; %d random longer Unicode pairs (pattern derived from the text, then perturbed; for JS half of them with characters outside the BMP, judged on UTF-16 code units)%s; a words leg (py + js): patterns and texts that are names the host language gives a meaning to (Object.prototype / Map / dict members, keywords, constants), plain and with wildcards; a literal leg (py + js): the pattern written as a string literal in the query text (select like(a1, <literal>), both quote styles) - replacement-routine metacharacters (dollar followed by dollar, ampersand, quote or backtick), quotes, backslashes, keywords, comment markers, format placeholders - against texts derived from the pattern. distinct_nontrivial counts pairs whose pattern contains a wildcard or a regular-expression metacharacter (exhaustive legs, disjoint by construction) plus distinct random pairs.' % (
             PAT_LEN[tier], TXT_LEN[tier], ''.join(ALPHABET), JS_PAT_LEN[tier], JS_TXT_LEN[tier], RANDOM_PAIRS[tier],
             '; every length-5 pattern containing a wildcard (and 1/7 of the others) against texts derived from it (wildcard instantiations and their single-symbol edits)' if tier == 'thorough' else ''),
         'exhaustive': True,
-        'required': ['py_exhaustive_pairs', 'py_random_pairs', 'py_newline_pairs', 'py_quantifier_pairs', 'py_word_pairs'],
+        'required': ['py_exhaustive_pairs', 'py_random_pairs', 'py_newline_pairs', 'py_quantifier_pairs', 'py_word_pairs', 'py_literal_pattern_queries'],
         'assumptions': ['rv.model.refcsv.like is SQL LIKE', 'single-line texts only (no LF, CR, NEL, LS, PS), as quantified'],
     }
 
